@@ -374,16 +374,36 @@ def _vertex_average_shape(fv):
     call, tab = _evaluate_call(fac.value, d, E)
     if call is None or tab != [[F(0), F(1), F(0)], [F(0), F(0), F(1)]]:
         return False, "vertex values are not evaluate(element, reference vertices (0,0),(1,0),(0,1)) (points %s)" % (tab,)
-    wts = [s for s in S if s.op == "Add=" and isinstance(s.tnode, ast.Subscript) and s.loops == a.loops and not s.guards and s.value == ex(area) and s is not a]
-    if len(wts) != 1 or not isinstance(wts[0].tnode.value, ast.Name) or wts[0].target != ex("A[%s]" % vert, A=wts[0].tnode.value.id):
-        return False, "no companion accumulation of the element area at the same vertex"
-    A_ = wts[0].tnode.value.id
     div = [s for s in S if s.op == "Div=" and isinstance(s.tnode, ast.Subscript) and unparse(s.tnode.value) == VAL and not s.loops]
     if len(div) != 1 or div[0].node.lineno < lE.lineno:
         return False, "values are not divided by the accumulated areas after the loop"
     msk = div[0].tnode.slice.elts[1] if isinstance(div[0].tnode.slice, ast.Tuple) and len(div[0].tnode.slice.elts) == 2 else None
-    if msk is None or div[0].value != roles.expect("A[M]", d, div[0].node.lineno, lv=False, A=A_, M=msk):
+    dv = div[0].vnode
+    if msk is None or not (isinstance(dv, ast.Subscript) and isinstance(dv.value, ast.Name) and unparse(dv.slice) == unparse(msk)):
         return False, "the final division is not values[:, m] /= areas[m] on one mask m"
+    A_ = dv.value.id
+    # the divisor: per vertex the sum of the areas of exactly the elements that contributed a value
+    wts = [s for s in S if s.op == "Add=" and isinstance(s.tnode, ast.Subscript) and unparse(s.tnode.value) == A_]
+    bulk = [c for c in ast.walk(fv) if isinstance(c, ast.Call) and unparse(c.func).endswith("add.at") and c.args and unparse(c.args[0]) == A_]
+    if not wts and not bulk:
+        return False, "the divisor `%s` never accumulates an element area" % A_
+    if bulk and not wts:
+        # vectorised form: _np.add.at(areas, elements[i, S], volumes[S]) for i in range(3); S must be the support
+        for c in bulk:
+            if len(c.args) != 3:
+                raise AnalysisError("evaluate_on_vertices: unrecognised bulk accumulation `%s`" % unparse(c)[:80])
+            idx, val = (roles.canon(x, d).replace(" ", "") for x in c.args[1:])
+            sup = "self.space.support_elements"
+            whole = idx.startswith("self.space.grid.elements[") and sup not in idx and val == "self.space.grid.volumes"
+            restricted = idx.startswith("self.space.grid.elements[") and sup in idx and val in ("self.space.grid.volumes[%s]" % sup,)
+            if whole:
+                return False, "the divisor sums the areas of all elements adjacent to a vertex (`%s`), the values only those of the support elements: wrong at the edge of a segment" % unparse(c)[:70]
+            if not restricted:
+                raise AnalysisError("evaluate_on_vertices: unrecognised bulk accumulation `%s`" % unparse(c)[:80])
+        raise AnalysisError("evaluate_on_vertices: vectorised area accumulation over the support; its vertex coverage is not analysed")
+    wts = [s for s in wts if s.loops == a.loops and not s.guards and s.value == ex(area)]
+    if len(wts) != 1 or wts[0].target != ex("A[%s]" % vert, A=A_):
+        return False, "no companion accumulation of the element area at the same vertex"
     if isinstance(msk, ast.Name):
         marks = [s for s in S if isinstance(s.tnode, ast.Subscript) and unparse(s.tnode.value) == msk.id and s.loops == a.loops]
         if not (len(marks) == 1 and marks[0].value == "True" and marks[0].target == ex("M[%s]" % vert, M=msk.id)):
